@@ -1,6 +1,6 @@
 (* C10 - extended events mean exactly their expansion into basic events.
    Statements only; proofs are in Core/EventsProofs.v. *)
-From SF Require Import Base.Prelude Core.Events Core.EventsProofs.
+From SF Require Import Base.Prelude Core.Events Core.EventsProofs Core.AdapterProofs.
 
 (* Wrapped plain visitors (structform.EnsureExtVisitor around a Visitor that has none
    of the extended interfaces): for every extended event - each of the 15 typed
@@ -11,3 +11,14 @@ Theorem C10_wrap : forall e s, s_fail s = None ->
   exists s', adapter s e = (s', true) /\ s_fail s' = None /\ s_log s' = s_log s ++ expand e.
 Proof. intros e s H. exact (adapter_is_expand e s H). Qed.
 Print Assumptions C10_wrap.
+
+(* The expansion has the same value and is well-formed whenever the extended event is,
+   at any position and depth of a stream. *)
+Theorem C10_expansion_same_value : forall evs t, stream_tree evs = Some t ->
+  exists t', stream_tree (flat_map expand evs) = Some t' /\ value_of t' = value_of t.
+Proof. exact expand_stream_value. Qed.
+Print Assumptions C10_expansion_same_value.
+
+Theorem C10_expansion_wellformed : forall evs, contract_ok evs = true -> contract_ok (flat_map expand evs) = true.
+Proof. exact C09_expand_stream. Qed.
+Print Assumptions C10_expansion_wellformed.
